@@ -23,7 +23,7 @@ class Contract:
     def __init__(self, qual, params=None, returns="none", requires=(), ensures=(), raises=None,
                  modifies=(), decreases=None, assumed=False, self_kind=None, raises_modifies=None,
                  fresh_result=False, pure=False, note="", group=None, ensures_on_raise=None, opaque_calls=(),
-                 for_cls=None, variant=None):
+                 for_cls=None, variant=None, cut_after_loop=None):
         self.qual = qual
         self.params = [(n, parse_kind(k)) for n, k in (params or {}).items()] if isinstance(params, dict) else [
             (n, parse_kind(k)) for n, k in (params or [])]
@@ -42,6 +42,7 @@ class Contract:
         self.note = note
         self.group = group  # recursion group name (termination measure compared inside a group)
         self.for_cls = for_cls  # contract of an inherited method as seen on receivers of this subclass
+        self.cut_after_loop = cut_after_loop  # prefix contract: `ensures` hold after the statement holding this loop
         self.variant = variant  # a named case of the contract (verified as target tag; never used at call sites)
 
     @property
